@@ -29,10 +29,13 @@ fn run_case(out: &mut Out, run: usize, case: &Value) {
     let query = case["query"].as_str().unwrap().to_string();
     let rules = case["rules"].as_str().unwrap_or("").to_string();
     let stat = case["static"].as_str().unwrap_or("").to_string();
+    // events are tagged (emit: run number; fire/query: the case's own window names, unique per case) so that
+    // late events of a previous case's still-draining threads can be told apart and dropped
+    let my_windows: Vec<String> = case["windows"].as_array().map(|a| a.iter().map(|w| w.as_str().unwrap_or("").to_string()).collect()).unwrap_or_default();
     let consumer = ResultConsumer {
-        function: Arc::new(|row: Vec<(String, String)>| {
+        function: Arc::new(move |row: Vec<(String, String)>| {
             let o: serde_json::Map<String, Value> = row.into_iter().map(|(k, v)| (k, json!(v))).collect();
-            kolibrie::verif::event(json!({"ev":"emit","row":o}).to_string());
+            kolibrie::verif::event(json!({"ev":"emit","row":o,"run":run}).to_string());
         }),
     };
     let built = guarded(|| {
@@ -89,7 +92,7 @@ fn run_case(out: &mut Out, run: usize, case: &Value) {
         std::thread::sleep(Duration::from_millis(if multi { 15 } else { 1 }));
         log.extend(kolibrie::verif::take_log());
         if log.len() != last { last = log.len(); stable = Instant::now(); }
-        let quiet = stable.elapsed() > Duration::from_millis(if multi { 120 } else { 2 });
+        let quiet = stable.elapsed() > Duration::from_millis(if multi { 150 } else { 2 });
         if quiet || t0.elapsed() > Duration::from_secs(5) { break; }
     }
     drop(engine);
@@ -97,6 +100,12 @@ fn run_case(out: &mut Out, run: usize, case: &Value) {
     for (i, line) in log.iter().enumerate() {
         let mut v: Value = serde_json::from_str(line).unwrap_or(json!({"ev":"garbled"}));
         v["seq"] = json!(i + 1);
+        let stray = match v["ev"].as_str() {
+            Some("emit") => v["run"].as_u64() != Some(run as u64),
+            Some("fire") | Some("query") => !my_windows.is_empty() && !my_windows.iter().any(|w| Some(w.as_str()) == v["win"].as_str()),
+            _ => false,
+        };
+        if stray { continue; }
         if v["ev"] == "fire" {
             // translate the engine's item identifiers back to the lexical triples that were pushed
             let items: Vec<Value> = v["items"].as_array().unwrap().iter().map(|it| {
